@@ -51,7 +51,7 @@ class DistUnit(corr.Unit):
         start = datetime.datetime.fromisoformat("2023-01-0%dT08:00:00+02:00" % rng.randint(2, 8))
         iv = rng.choice([15, 15, 10])
         n = rng.choice([8, 12])
-        comp = {"grid_connectors": {"GC1": {"max_power": rng.choice([50, 100]), "cost": {"type": "fixed", "value": 0.3}, "number_cs": (0 if RNGX.random() < 0.2 else rng.choice([1, 1, 2])),
+        comp = {"grid_connectors": {"GC1": {"max_power": rng.choice([50, 100]), "cost": {"type": "fixed", "value": 0.3}, "number_cs": (lambda v_: 0 if RNGX.random() < 0.2 else v_)(rng.choice([1, 1, 2])),
                                             "voltage_level": "MV", "grid_operator": "default_grid_operator"},
                                     "GC2": {"max_power": 100, "cost": {"type": "fixed", "value": 0.3}, "voltage_level": "MV", "grid_operator": "default_grid_operator"}},
                 "charging_stations": {}, "vehicle_types": {"vt": {"name": "vt", "capacity": rng.choice([50, 200]), "charging_curve": [[0, 50], [1, 50]]}},
